@@ -42,7 +42,12 @@ class Scanner:
         self.pos = 0
         tokens = []
         while self.pos < self.max_pos:
-            tokens.append(self.next_token())
+            tok = self.next_token()
+            if type(tok) is list:
+                # error mark, may consist of several tokens
+                tokens.extend(tok)
+            else:
+                tokens.append(tok)
         return tokens
 
     #   determine next token
@@ -131,7 +136,7 @@ class Scanner:
     def scan_verb(self, latex, start):
         def verb_err():
             return utils.latex_error('bad \\verb argument',
-                                        start, latex, self.parms)[0]
+                                        start, latex, self.parms)
         start_arg = start + len('\\verb')
         if start_arg >= self.max_pos:
             return verb_err()
@@ -158,7 +163,7 @@ class Scanner:
         end = latex.find('\\end{verbatim}', pos)
         if end < 0:
             return utils.latex_error('missing end of verbatim',
-                                            start, latex, self.parms)[0]
+                                            start, latex, self.parms)
         self.pos = end + len('\\end{verbatim}')
         return defs.VerbatimToken(pos, latex[pos:end], environ=True)
 
